@@ -822,7 +822,16 @@ def r14_7(ctx, prog, crate):
     cli_action_table(ctx, "R14.7", prog, crate)
 
 
+def r14_9(ctx, prog, crate):
+    """(= R13.6) Round trip of a listed path: a path given back as the only --exact filter reaches the filter set exactly as
+    typed - the clap definitions of `filter` / `--skip` do not split (display paths contain commas), parse or default it."""
+    from .C13 import r13_6
+    from .common import Renamed
+    r13_6(Renamed(ctx, "R14.9"), prog, crate)
+
+
 def run(ctx, prog, crate):
+    r14_9(ctx, prog, crate)
     r14_7(ctx, prog, crate)
     r14_8(ctx, prog, crate)
     r14_6(ctx, prog, crate)
